@@ -158,6 +158,111 @@ theorem C09_publish_ast_mono (now₁ now₂ : Int) (ref : Ref) (o : Options)
       ≤ (calculateLiveParams now₂ ref o).availabilityStartTime :=
   ⟨publish_mono now₁ now₂ ref o h₁ h₂ hle hast, Int.le_of_eq hast⟩
 
+open DashLive.LiveTiming in
+/-- the window `LiveMedia` works with, taken from the C08 model of `DashTiming` -/
+def winOfTiming (lt : LiveTiming) : Win :=
+  { E := lt.elapsedTime.toNat, tsbd := lt.timeShiftBufferDepth.toNat, leeway := lt.leeway.toNat }
+
+open DashLive.LiveTiming in
+/-- **C08 ∘ C01 (composition).**  For *every* accepted clock and option set, the window the
+media handler rebuilds from `DashTiming` satisfies C01's window hypothesis, so under the
+leeway/segment hypotheses every listed `$Time$` entry that ends by now is served (200). -/
+theorem C01_time_from_clock (now : Int) (ref : Ref) (o : Options) (h : Accepted now o)
+    (conv : Nat → Int) (durs : List Nat) (ts sd sn R fuel : Nat)
+    (hn : 2 ≤ durs.length) (hR : 0 < R) (hts : 0 < ts) (hsd : 0 < sd) (hconv : ConvSpec conv ts)
+    (hadv : AdvMicro durs R ts)
+    (hlee : LeewayTime durs ts (winOfTiming (calculateLiveParams now ref o)))
+    (hhalf : HalfSeg durs sd) :
+    let w := winOfTiming (calculateLiveParams now ref o)
+    let l := expand (timelineLive durs R ts (tcFirst w ts) w.tsbd fuel)
+    ∀ i (hi : i < l.length), ((l[i]).1 + (l[i]).2) * 1000000 ≤ (w.E : Int) * ts →
+      ∃ m o' k, liveIndex conv durs ts sd sn R w (.time (l[i]).1.toNat) = .ok m o' k := by
+  have hw := window_from_timing now ref o h
+  have he := (elapsed_eq now ref o h).2
+  have hwin : (winOfTiming (calculateLiveParams now ref o)).tsbd * 1000000
+      ≤ (winOfTiming (calculateLiveParams now ref o)).E := by
+    unfold winOfTiming
+    simp only
+    omega
+  exact C01_time_partial conv durs ts sd sn R _ fuel hn hR hts hsd hwin hconv hadv hlee hhalf
+
+/-! ### the manifest's resolved `start`/`depth` rebuild the same window (URL round trip) -/
+
+namespace Roundtrip
+open DashLive.LiveTiming
+
+theorem clamp_idem (e d0 : Int) (he : 0 < e) (hd : 0 < d0) :
+    clampDepth e (initialDepth true (some (clampDepth e d0))) = clampDepth e d0 := by
+  unfold clampDepth initialDepth usPerSec defaultDepth
+  by_cases h1 : e < d0 * 1000000
+  · simp only [h1, if_true]
+    rw [Int.tdiv_eq_ediv_of_nonneg (Int.le_of_lt he)]
+    by_cases h2 : e / 1000000 = 0 ∨ (True ∧ e / 1000000 < 0)
+    · simp only [h2, if_true]
+      have : e < 60 * 1000000 := by omega
+      simp only [this, if_true]
+    · simp only [h2, if_false]
+      have : ¬ (e < e / 1000000 * 1000000) := by omega
+      simp only [this, if_false]
+  · simp only [h1, if_false]
+    have h2 : ¬ (d0 = 0 ∨ (True ∧ d0 < 0)) := by omega
+    simp only [h2, if_false, h1]
+
+/-- a request that carries an explicit whole-second start `A` (not in the future) and a depth
+`B` rebuilds `availabilityStartTime = A`, `elapsedTime = now − A` and the depth clamped again -/
+theorem explicit_core (now A off B : Int) (ref : Ref) (o : Options)
+    (hA : A % 1000000 = 0) (hlt : A < now) :
+    let o' : Options := { o with start := .explicit A off, depth := some B }
+    (calculateLiveParams now ref o').availabilityStartTime = A ∧
+    (calculateLiveParams now ref o').elapsedTime = now - A ∧
+    (calculateLiveParams now ref o').timeShiftBufferDepth
+      = clampDepth (now - A) (initialDepth true (some B)) ∧
+    (calculateLiveParams now ref o').firstAvailableTime
+      = (now - A) - clampDepth (now - A) (initialDepth true (some B)) * usPerSec ∧
+    (calculateLiveParams now ref o').leeway = (calculateLiveParams now ref o).leeway := by
+  have hfl : floorSec A = A := floorSec_of_whole A (by unfold usPerSec; exact hA)
+  have hne : ¬ (now - A = 0) := by omega
+  simp only [calculateLiveParams, calcWith, resolveStart, if_true, hfl, backOff, hne, if_false]
+  exact ⟨trivial, trivial, trivial, trivial, trivial⟩
+
+/-- **URL round trip of the live window.**  The manifest writes its *resolved*
+availabilityStartTime and (clamped) timeShiftBufferDepth into every media URL
+(manifest_context.py:292-295); a media request carrying them, evaluated at the same
+instant, rebuilds exactly the same availabilityStartTime, elapsedTime,
+timeShiftBufferDepth and firstAvailableTime – whatever the original options were
+(symbolic start, absent/zero/negative depth, young stream …). -/
+theorem url_roundtrip_timing (now : Int) (ref : Ref) (o : Options) (h : Accepted now o) :
+    let lt := calculateLiveParams now ref o
+    let o' : Options := { o with start := .explicit lt.availabilityStartTime lt.utcOffsetMin,
+                                 depth := some lt.timeShiftBufferDepth }
+    (calculateLiveParams now ref o').availabilityStartTime = lt.availabilityStartTime ∧
+    (calculateLiveParams now ref o').elapsedTime = lt.elapsedTime ∧
+    (calculateLiveParams now ref o').timeShiftBufferDepth = lt.timeShiftBufferDepth ∧
+    (calculateLiveParams now ref o').firstAvailableTime = lt.firstAvailableTime ∧
+    (calculateLiveParams now ref o').leeway = lt.leeway := by
+  intro lt o'
+  obtain ⟨h1, h2, h3, h4⟩ := calc_core ref h.clock h.start_le_now
+  have htsbd := calc_tsbd now ref o
+  have hfat := calc_fat now ref o
+  have hlt : lt.availabilityStartTime < now := by
+    have : lt.elapsedTime = now - lt.availabilityStartTime := h3
+    have : 0 < lt.elapsedTime := h4
+    omega
+  obtain ⟨c1, c2, c3, c4, c5⟩ := explicit_core now lt.availabilityStartTime lt.utcOffsetMin
+    lt.timeShiftBufferDepth ref o (by unfold usPerSec at h2; exact h2) hlt
+  have hE : now - lt.availabilityStartTime = lt.elapsedTime := by
+    have : lt.elapsedTime = now - lt.availabilityStartTime := h3
+    omega
+  have hB : lt.timeShiftBufferDepth = clampDepth lt.elapsedTime (initialDepth true o.depth) := htsbd
+  have hidem := clamp_idem lt.elapsedTime (initialDepth true o.depth) h4 (initialDepth_pos o.depth)
+  refine ⟨c1, ?_, ?_, ?_, c5⟩
+  · rw [c2, hE]
+  · rw [c3, hE, hB, hidem]
+  · rw [c4, hE, hB, hidem]
+    exact hfat.symm ▸ (by rw [← hB])
+
+end Roundtrip
+
 /-! ### MPD patches -/
 
 /-- the parts of a live manifest a patch replaces -/
